@@ -51,6 +51,7 @@ type c08Obs struct {
 	regObs        bool // registration answer carried an Observe option
 	regSeen       bool // the peer saw the registration
 	regSeenTick   int
+	plainTried    bool
 	answeredLate  bool
 	regAnswered   bool
 	registered    bool // Observe() returned without error
@@ -457,6 +458,30 @@ func c08Run(e *Env) {
 							e.Probe("observe.tokenInUseRefused")
 						}
 						e.Notef("registration with the token of obs%d returned err=%v", o.idx, err != nil)
+					}()
+				}})
+			}
+			if slots == 0 && o.registered && !o.cancelStarted && !o.plainTried && o.token != nil && o.regObs && (o.regCode == 0x45 || o.regCode == 0x43) {
+				// another application error that must stay harmless: an ordinary request with the token of a live
+				// observation. The token is in use: the request is refused, the observation goes on as before.
+				evs = append(evs, Event{Label: "request-with-token-of-observation", W: 1, Do: func() {
+					o.plainTried = true
+					e.Fault("request.tokenOfLiveObservation")
+					e.Probe("request.tokenOfLiveObservation")
+					e.Logf("application issues an ordinary request with the token of obs%d", o.idx)
+					ctx, cancel := context.WithTimeout(context.Background(), 3*time.Second)
+					e.OnCleanup(cancel)
+					go func() {
+						req := w.API.AcquireMessage(ctx)
+						defer w.API.ReleaseMessage(req)
+						_ = req.SetupGet("/plain", message.Token(o.token), QueryOpt(80+o.idx))
+						resp, err := w.API.Do(req)
+						if err == nil {
+							ri := Snapshot(resp)
+							w.API.ReleaseMessage(resp)
+							e.Violate("C08.R2", "request-accepted-with-token-of-live-observation", "an ordinary request with the token of obs%d (a live observation) was accepted and returned %s: what arrives under that token now has two takers", o.idx, ri)
+						}
+						e.Notef("request with the token of obs%d returned err=%v", o.idx, err != nil)
 					}()
 				}})
 			}
